@@ -265,6 +265,7 @@ enum ModelFault {
     MF_FOREIGN_TARGET,   // an edge whose target id belongs to another template
     MF_INIT_IS_BRANCHPOINT,
     MF_UNKNOWN_PROCESS,
+    MF_EMPTY_TEMPLATE,   // a template without locations, init and edges (XTA: "process T() { }")
     MF_COUNT
 };
 const char* model_fault_name(int);
